@@ -97,6 +97,8 @@ class Ctx:
         self.kd = dn.kernel_diag(self.ks, P)
         self.dkd = tl.diag_err(self.ks, P)
         self.gap = tl.textbook_gap(self.ks, self.kd[:, None], self.kd[None, :])
+        # diagonal() minus diag(forward()): the exact size of the documented sqrt-safeguard effect on k(x,x)
+        self.dgap = self.kd - np.diag(self.K)
         self.mv = [dn.mean_vector(msa, P, self.ks) for msa, _ in self.means]
         self.dmv = [tl.mean_err(msa, self.ks, P) for msa, _ in self.means]
         self._kmp = {}
@@ -225,9 +227,10 @@ class RefCase:
         dKs = ctx.dK[np.ix_(self.ii, tt)]
         if self.textbook:
             dKs = dKs + ctx.gap[np.ix_(self.ii, tt)]
-        r = dict(mean=mean, var=var, W=W, Ks=Ks, dKs=dKs, prior=kss,
+        r = dict(mean=mean, var=var, var_alt=var - ctx.dgap[tt], W=W, Ks=Ks, dKs=dKs, prior=kss,
                  tol_mean=self.B.mean(W, Ks, dKs, dmt, mean),
-                 tol_var=self.B.var(W, Ks, dKs, kss, ctx.dkd[tt]))
+                 tol_var=self.B.var(W, Ks, dKs, kss,
+                                    ctx.dkd[tt] + (np.diag(ctx.gap)[tt] if self.textbook else 0.0)))
         self._at[tidx] = r
         return r
 
@@ -265,24 +268,33 @@ def _fmt(a):
     return np.array2string(np.asarray(a, dtype=float).ravel()[:6], precision=12, separator=",")
 
 
-def compare(ctx, kind, pat, got, ref, tol, replay, note=""):
-    """|got - ref| <= tol elementwise, else a violation with key kind:pat."""
+def compare(ctx, kind, pat, got, ref, tol, replay, note="", record=True, alt=None):
+    """|got - ref| <= tol elementwise (or, if given, |got - alt| <= tol elementwise), else a violation with key
+    kind:pat.  record=False only probes (nothing is recorded or counted)."""
     got = np.asarray(got, dtype=float)
     ref = np.asarray(ref, dtype=float)
-    ctx.cov.add("evaluations")
+    if record:
+        ctx.cov.add("evaluations")
     if got.shape != ref.shape:
-        ctx.V.add(f"{kind}-shape:{pat}", f"shape {got.shape} != reference {ref.shape} {note}", replay)
+        if record:
+            ctx.V.add(f"{kind}-shape:{pat}", f"shape {got.shape} != reference {ref.shape} {note}", replay)
         return False
     diff = got - ref
-    ctx.note_ratio(kind.replace("/", "_"), diff, tol)
     bad = ~(np.abs(diff) <= tol)
+    if bad.any() and alt is not None:
+        diff2 = got - np.asarray(alt, dtype=float)
+        if not (~(np.abs(diff2) <= tol)).any():
+            diff, bad = diff2, ~(np.abs(diff2) <= tol)
+    if record:
+        ctx.note_ratio(kind.replace("/", "_"), diff, tol)
     if bad.any():
-        j = int(np.argmax(np.where(np.isfinite(diff), np.abs(diff) / tol, np.inf)))
-        ctx.V.add(f"{kind}:{pat}",
-                  f"{kind} differs from the dense reference beyond the rounding bound: worst |diff|/tol="
-                  f"{float(np.abs(diff).ravel()[j] / np.ravel(np.broadcast_to(tol, diff.shape))[j]):.3g} "
-                  f"got={got.ravel()[j]!r} ref={ref.ravel()[j]!r} tol={float(np.ravel(np.broadcast_to(tol, diff.shape))[j]):.3g} {note}",
-                  replay)
+        if record:
+            tolb = np.ravel(np.broadcast_to(tol, diff.shape))
+            j = int(np.argmax(np.where(np.isfinite(diff), np.abs(diff) / tol, np.inf)))
+            ctx.V.add(f"{kind}:{pat}",
+                      f"{kind} differs from the dense reference beyond the rounding bound: worst |diff|/tol="
+                      f"{float(np.abs(diff).ravel()[j] / tolb[j]):.3g} got={got.ravel()[j]!r} "
+                      f"ref={ref.ravel()[j]!r} tol={float(tolb[j]):.3g} {note}", replay)
         return False
     return True
 
@@ -321,39 +333,46 @@ def detect_jitter(ctx, st, rc, noise, pat, replay):
     return None
 
 
-def check_predict(ctx, st, rc, cols, tidx, pat, replay, kind="predict", prior_check=True):
-    """st.predict(P[tidx]) against reference columns `cols` of rc."""
+def check_predict(ctx, st, rc, cols, tidx, pat, replay, kind="predict", prior_check=True, record=True, pred=None):
+    """st.predict(P[tidx]) against reference columns `cols` of rc.  The prior variance k(x,x) is accepted both as
+    KernelFunction.diagonal() (documented, = textbook value) and as the diagonal of forward() (with the sqrt
+    safeguard): they differ by <= NUMERICAL_JITTER/2 * k(x,x), additively and without amplification."""
     try:
-        mu, var = st.predict(ctx.P[np.array(tidx)])
+        mu, var = st.predict(ctx.P[np.array(tidx)]) if pred is None else pred
     except Exception as e:  # noqa: BLE001
-        ctx.V.add(f"exc/{kind}:{type(e).__name__}:{pat}", f"{kind} raised {type(e).__name__}: {e}", replay)
-        return None
+        if record:
+            ctx.V.add(f"exc/{kind}:{type(e).__name__}:{pat}", f"{kind} raised {type(e).__name__}: {e}", replay)
+        return False
     mu = np.asarray(mu)
     var = np.asarray(var)
     r = rc.at(tidx)
-    ok = compare(ctx, f"{kind}/mean", pat, mu, r["mean"][:, cols], r["tol_mean"][:, cols], replay)
+    ok = compare(ctx, f"{kind}/mean", pat, mu, r["mean"][:, cols], r["tol_mean"][:, cols], replay, record=record)
     ref_var = np.maximum(r["var"], FLOOR)
-    ok &= compare(ctx, f"{kind}/var", pat, var, ref_var, r["tol_var"], replay)
-    if prior_check and var.shape == ref_var.shape:
+    ok &= compare(ctx, f"{kind}/var", pat, var, ref_var, r["tol_var"], replay, record=record,
+                  alt=np.maximum(r["var_alt"], FLOOR))
+    if prior_check and record and var.shape == ref_var.shape:
         ctx.cov.add("evaluations")
         if not np.all(var >= FLOOR):
             ctx.V.add(f"{kind}/var-below-floor:{pat}", f"variance {_fmt(var[~(var >= FLOOR)])} < floor {FLOOR}", replay)
+            ok = False
         hi = np.maximum(r["prior"], FLOOR) + r["tol_var"]
         if not np.all(var <= hi):
             ctx.V.add(f"{kind}/var-above-prior:{pat}",
                       f"posterior variance {_fmt(var[~(var <= hi)])} > prior variance {_fmt(r['prior'][~(var <= hi)])}",
                       replay)
-    return mu, var
+            ok = False
+    return bool(ok)
 
 
-def check_nlml(ctx, st, rc, col, pat, replay, kind="nlml"):
+def check_nlml(ctx, st, rc, col, pat, replay, kind="nlml", record=True, val=None):
     try:
-        val = float(st.neg_log_likelihood())
+        val = float(st.neg_log_likelihood()) if val is None else val
     except Exception as e:  # noqa: BLE001
-        ctx.V.add(f"exc/{kind}:{type(e).__name__}:{pat}", f"{kind} raised {type(e).__name__}: {e}", replay)
-        return
+        if record:
+            ctx.V.add(f"exc/{kind}:{type(e).__name__}:{pat}", f"{kind} raised {type(e).__name__}: {e}", replay)
+        return False
     ref, tol = rc.nlml(col)
-    compare(ctx, kind, pat, val, ref, tol, replay)
+    return compare(ctx, kind, pat, val, ref, tol, replay, record=record)
 
 
 def check_joint(ctx, st, rc, cols, tidx, pat, replay):
@@ -452,7 +471,8 @@ def check_gpr(ctx, k, noise, rc, col, Ycol, tidx, pat, replay):
     mu, var = preds[0]
     r = rc.at(tidx)
     compare(ctx, "gpr/mean", pat, np.asarray(mu).reshape(-1), r["mean"][:, col], r["tol_mean"][:, col], replay)
-    compare(ctx, "gpr/var", pat, np.asarray(var), np.maximum(r["var"], FLOOR), r["tol_var"], replay)
+    compare(ctx, "gpr/var", pat, np.asarray(var), np.maximum(r["var"], FLOOR), r["tol_var"], replay,
+            alt=np.maximum(r["var_alt"], FLOOR))
     ref, tol = rc.nlml(col)
     compare(ctx, "gpr/nlml", pat, nl, ref, tol, replay)
 
